@@ -2,7 +2,7 @@
 import json
 from .. import common
 
-T_TEXT = "name T\nversion 1.0\n\nfloat array M =\n    {b}, 2\nfloat v = {b}\nG({a}) | 0\nVac | 1\nK(l=[1, 2]) | 0\n"
+T_TEXT = "name T\nversion 1.0\ntarget X8_01 (shots=10, flags=[1, 2])\n\nfloat array M =\n    {b}, 2\nfloat v = {b}\nG({a}) | 0\nVac | 1\nK(l=[1, 2]) | 0\n"
 P_TEXT = "name P\nversion 1.0\n\nint array N =\n    3, 4\nVac | 0\nH(5) | 1\n"
 
 
@@ -63,6 +63,10 @@ def content_ok(spec, p):
     vs = spec["vars"]["items"]
     if [x["key"] for x in vs] != list(p.variables.keys()) or not all(value_ok(x["v"], p.variables[x["key"]]) for x in vs):
         return "variables %r, specification says %s" % (p.variables, vs)
+    os_ = spec["opts"]["items"]
+    ro = p.target.get("options") or {}
+    if [x["key"] for x in os_] != list(ro.keys()) or not all(value_ok(x["v"], ro[x["key"]]) for x in os_):
+        return "target options %r, specification says %s" % (ro, os_)
     if set(spec["params"]) != set(p.parameters):
         return "parameters %s, specification says %s" % (sorted(p.parameters), sorted(spec["params"]))
     return None
@@ -104,6 +108,10 @@ def run_history(case):
                     o.variables["newvar"] = 1
                 elif a["kind"] == "rename_op":
                     o.operations[0]["op"] = "Renamed"
+                elif a["kind"] == "set_option":
+                    o.target["options"]["shots"] = 99
+                elif a["kind"] == "append_option_list":
+                    o.target["options"]["flags"].append(3)
         except BaseException as e:      # noqa: BLE001
             return "bad", "step %d %s raised %s: %s" % (step + 1, a, type(e).__name__, str(e)[:150])
         after = {n: digest(o) for n, o in objs.items()}
@@ -155,7 +163,7 @@ def run(rep, tier, seed):
     rep.cov["evaluations"] = len(cases)
     rep.cov["distinct_nontrivial"] = sum(1 for c in cases if any(a["act"] in ("call", "mutate", "digraph", "match") for a in c["hist"]))
     rep.cov["rule"] = ("every sequence of %d actions (dumps, attribute reads, to_DiGraph, match_template, template calls with 2 environments creating up to "
-                       "2 instances, 5 kinds of mutation of an instance) over a template with an argument-less operation, a list keyword, a parameterised "
+                       "2 instances, 7 kinds of mutation of an instance (argument list, keyword dict, array element, variable dict, operation name, target option, list inside a target option)) over a template with an argument-less operation, a list keyword, a parameterised "
                        "array and scalar variable, and a plain program; after every action a deep digest (structure + dumps text) of every live object" % depth)
 
 
